@@ -16,7 +16,7 @@ build_fs() {
     cp -f target/release/sim_fs "bin/sim_fs_${fmt}" || fail "copy sim_fs_${fmt}"
   done
   # the code generator under other feature configurations (json only)
-  for v in dyn_hydrate:dynhyd dyn_ssr:dynssr dyn_csr:dyncsr misc:misc bare:bare; do
+  for v in dyn_hydrate:dynhyd dyn_ssr:dynssr dyn_csr:dyncsr misc:misc bare:bare quiet:quiet; do
     (cd sim/sim_fs && quiet cargo build --release --offline --features "fmt_json macro_cfg_${v%%:*}") || fail "sim_fs json ${v##*:}"
     cp -f target/release/sim_fs "bin/sim_fs_json_${v##*:}" || fail "copy sim_fs_json_${v##*:}"
   done
